@@ -491,6 +491,7 @@ func compareTokens(cs caseSpec, impl, model []string) []vh.Mismatch {
 // ---- driver ---------------------------------------------------------------------------------------------
 
 type runner struct {
+	perKey map[string]int
 	a      vh.Args
 	res    *vh.Result
 	k256   *fieldCtx[*k256.Scalar]
@@ -499,6 +500,19 @@ type runner struct {
 	impls  []implOut
 	lines  []string
 	lineOf []int
+}
+
+// report forwards at most 5 mismatches per (kind, key): vh.Result keeps 200 in total and one
+// frequent key must not crowd out the others.
+func (r *runner) report(m vh.Mismatch) {
+	if r.perKey == nil {
+		r.perKey = map[string]int{}
+	}
+	k := m.Kind + "/" + m.Key
+	r.perKey[k]++
+	if r.perKey[k] <= 5 {
+		r.res.Mismatch(m)
+	}
 }
 
 func (r *runner) runSpec(cs caseSpec) implOut {
@@ -519,7 +533,7 @@ func (r *runner) add(cs caseSpec) {
 	}
 	r.res.Count(class, cs.text(), !out.trivial)
 	for _, m := range out.props {
-		r.res.Mismatch(m)
+		r.report(m)
 	}
 }
 
@@ -535,7 +549,7 @@ func (r *runner) finish() error {
 		for _, m := range compareTokens(cs, r.impls[i].tokens, modelTokens(outs[i])) {
 			// the property's own predicate already ran on the implementation for this case
 			m.PropFail = len(r.impls[i].props) > 0
-			r.res.Mismatch(m)
+			r.report(m)
 		}
 	}
 	return nil
